@@ -10,6 +10,7 @@ from collections import deque
 import inspect
 
 from ..aid.sixing import *
+from .globaling import AUX, SLAVE
 from ..aid import odict, oset
 from ..aid import aiding
 from . import excepting
